@@ -440,4 +440,36 @@ PROPS = {
         "gen_facts": ["Gen.WritePaths.paths = storage-mutating calls of Entity.Commit, operationPack.Write, dag.merge, Identity.Commit, Identity.Merge, "
                       "version.Write, identity.MergeAll with loop depth and what follows a ref update; clockWrite = file-system calls of PersistedClock.Write"],
     },
+    "C15": {
+        "level_text": "PARTIAL (go-git's object encoder and stock git are exercised, not modelled). Proved: StoreTree's sort is a permutation "
+                      "in git's tree order (sortTree_perm, sortTree_sorted); entries with legal, distinct names come out as a tree "
+                      "git fsck --strict accepts (sorted_tree_fsck_ok); that holds for the tree of every operation pack, whatever the "
+                      "format version, clock values, creation clock and extra tree (pack_tree_fsck_ok), and for the tree of attached files "
+                      "for any number of files (extra_tree_fsck_ok); every ref git-bug builds lies in its namespaces "
+                      "(built_refs_in_namespace) and removal/wipe leave every other ref in place (host_refs_untouched, with C14's frame "
+                      "theorems). Regenerated on every run: all literals from which ref names, refspecs and configuration keys are built "
+                      "(gen_ref_literals, gen_config_literals). Sessions on a real host repository check the frame from outside and let "
+                      "stock git judge every object.",
+        "level_note": "Trusted: Lean kernel, extractor, harness, stock git (fsck, gc, clone) as the judge of object validity. Commit and blob "
+                      "encoding is go-git's. The frame is observed through refs, HEAD, index, working tree, hooks, info, local configuration "
+                      "and the top level of .git.",
+        "required_theorems": ["sortTree_perm", "sortTree_sorted", "sorted_tree_fsck_ok", "pack_tree_fsck_ok", "extra_tree_fsck_ok",
+                              "built_refs_in_namespace", "host_refs_untouched", "gen_ref_literals", "gen_config_literals"],
+        "slices": ["C15"],
+        "needs_gitbug": True,
+        "timeout": {"quick": 2400, "thorough": 7200},
+        "rule": "host repository made with stock git (commits, branches and refs named like the namespaces, tags, notes, hooks, "
+                "info/exclude, unrelated configuration in several shapes, modified/staged/untracked files, attached or detached HEAD), "
+                "its bare remote and a second clone; random sessions of CLI commands (user, bug new/comment/label/title/status/select/rm, "
+                "push, pull, queries, wipe) and library actions (bugs with attachments, identity change, configuration writes) in both "
+                "clones, interleaved with the host's own commits, gc, fetch, pack-refs; snapshot of everything that is not git-bug's "
+                "before/after each action in all three repositories; at the end git fsck --strict in all, mirror clone, "
+                "gc --prune=now --aggressive and re-read with attachments; every stored tree goes to the model; random entry lists "
+                "through StoreTree are compared with the model's order and verdict against git ls-tree / git fsck; "
+                "non-trivial/distinct = distinct sessions and entry lists",
+        "trusted_base": [KERNEL, TIE, "model: GitBugModel.GitTree (sortTree, fsckTreeOk, packEntries, extraEntries), GitBugModel.Refs",
+                         "stock git 2.x as the oracle for object validity"],
+        "assumptions": [],
+        "gen_facts": ["Gen.Frame.refLiterals / configLiterals / namespaces = the string literals the source builds ref names, refspecs, configuration keys and its directory from"],
+    },
 }
